@@ -425,6 +425,9 @@ theorem processNotification_frame (st : Core) (m : Text) (p : Option Text) :
     · simp [completions]
     · split <;> simp [completions, Core.modChan, Mgr.removeNotificationHandler]
 
+theorem releaseReservedSlot_batches (m : Mgr) (id : Id) : (m.releaseReservedSlot id).batches = m.batches := by
+  unfold Mgr.releaseReservedSlot; split <;> rfl
+
 theorem processSubscriptionClose_frame (st : Core) (s : SubId) :
     (processSubscriptionClose st s).mgr.batches = st.mgr.batches ∧ (processSubscriptionClose st s).dead = st.dead := by
   unfold processSubscriptionClose
@@ -438,7 +441,7 @@ theorem processSubscriptionClose_frame (st : Core) (s : SubId) :
       · simp at h
         obtain ⟨h1, _⟩ := h
         subst h1
-        simp [Core.modChan]
+        simp [Core.modChan, releaseReservedSlot_batches]
       · simp at h
 
 /-- what the loop leaves behind when it runs to the end -/
@@ -679,6 +682,12 @@ theorem mem_areplace (p : κ × ν) (k : κ) (v : ν) (l : List (κ × ν)) (h :
         · exact Or.inl (List.mem_cons_of_mem _ h)
         · exact Or.inr h
 
+theorem alookup_aerase_some (k id : κ) (v : ν) (l : List (κ × ν))
+    (h : alookup k (aerase id l) = some v) : alookup k l = some v ∧ k ≠ id := by
+  by_cases e : k = id
+  · subst e; rw [alookup_aerase_self] at h; simp at h
+  · rw [alookup_aerase_ne k id l e] at h; exact ⟨h, e⟩
+
 end AList
 
 /-! ### who is waiting: ticket counting -/
@@ -688,6 +697,7 @@ def kindOp : Kind → Option Nat
   | .pendingCall none => none
   | .pendingSub _ t _ => some t.op
   | .sub _ _ _ => none
+  | .pendingUnsub _ => none
 
 def reqCount (k : Nat) : List (Id × Kind) → Nat
   | [] => 0
@@ -807,5 +817,115 @@ theorem batCount_aerase_of_lookup (k : Nat) (key : Nat × Nat) (t : Ticket) (l :
       simp only [e, if_false, batCount]
       have := ih h
       omega
+
+/-! ### the two slot operations of the fixed manager (`release_reserved_slot`, end of `unsubscribe`) -/
+
+theorem releaseReservedSlot_cases (m : Mgr) (id : Id) :
+    m.releaseReservedSlot id = m ∨
+    (alookup id m.requests = some (.pendingCall none) ∧
+     m.releaseReservedSlot id = { m with requests := aerase id m.requests }) := by
+  unfold Mgr.releaseReservedSlot
+  split
+  · rename_i h; exact Or.inr ⟨h, rfl⟩
+  · exact Or.inl rfl
+
+theorem markUnsubscribing_cases (m : Mgr) (uid rid : Id) :
+    m.markUnsubscribing uid rid = m ∨
+    (alookup uid m.requests = some (.pendingCall none) ∧
+     m.markUnsubscribing uid rid = { m with requests := areplace uid (.pendingUnsub rid) m.requests }) := by
+  unfold Mgr.markUnsubscribing
+  split
+  · rename_i h; exact Or.inr ⟨h, rfl⟩
+  · exact Or.inl rfl
+
+theorem releaseReservedSlot_others (m : Mgr) (id : Id) :
+    (m.releaseReservedSlot id).subs = m.subs ∧ (m.releaseReservedSlot id).batches = m.batches ∧
+    (m.releaseReservedSlot id).handlers = m.handlers := by
+  rcases releaseReservedSlot_cases m id with h | ⟨_, h⟩ <;> rw [h] <;> exact ⟨rfl, rfl, rfl⟩
+
+theorem markUnsubscribing_others (m : Mgr) (uid rid : Id) :
+    (m.markUnsubscribing uid rid).subs = m.subs ∧ (m.markUnsubscribing uid rid).batches = m.batches ∧
+    (m.markUnsubscribing uid rid).handlers = m.handlers := by
+  rcases markUnsubscribing_cases m uid rid with h | ⟨_, h⟩ <;> rw [h] <;> exact ⟨rfl, rfl, rfl⟩
+
+/-- the slot operations never touch an entry that is not a bare `PendingMethodCall(None)` slot,
+and never create one -/
+theorem alookup_releaseReservedSlot (m : Mgr) (id k : Id) (kd : Kind) (hk : kd ≠ .pendingCall none) :
+    alookup k (m.releaseReservedSlot id).requests = some kd ↔ alookup k m.requests = some kd := by
+  rcases releaseReservedSlot_cases m id with h | ⟨h1, h⟩
+  · rw [h]
+  · rw [h]
+    simp only
+    by_cases e : k = id
+    · subst e
+      rw [alookup_aerase_self, h1]
+      constructor
+      · intro c; simp at c
+      · intro c; simp at c; exact absurd c.symm hk
+    · rw [alookup_aerase_ne k id _ e]
+
+theorem alookup_markUnsubscribing (m : Mgr) (uid rid k : Id) (kd : Kind) (hk : kd ≠ .pendingCall none)
+    (hk2 : kd ≠ .pendingUnsub rid) :
+    alookup k (m.markUnsubscribing uid rid).requests = some kd ↔ alookup k m.requests = some kd := by
+  rcases markUnsubscribing_cases m uid rid with h | ⟨h1, h⟩
+  · rw [h]
+  · rw [h]
+    simp only
+    by_cases e : k = uid
+    · subst e
+      rw [alookup_areplace_self k _ _ (by simp [h1]), h1]
+      constructor
+      · intro c; simp at c; exact absurd c.symm hk2
+      · intro c; simp at c; exact absurd c.symm hk
+    · rw [alookup_areplace_ne k uid _ _ e]
+
+theorem mem_releaseReservedSlot (m : Mgr) (id : Id) (p : Id × Kind) (h : p ∈ (m.releaseReservedSlot id).requests) :
+    p ∈ m.requests := by
+  rcases releaseReservedSlot_cases m id with e | ⟨_, e⟩
+  · rw [e] at h; exact h
+  · rw [e] at h; exact (mem_aerase p id _ h).1
+
+theorem mem_markUnsubscribing (m : Mgr) (uid rid : Id) (p : Id × Kind) (h : p ∈ (m.markUnsubscribing uid rid).requests) :
+    p ∈ m.requests ∨ p = (uid, .pendingUnsub rid) := by
+  rcases markUnsubscribing_cases m uid rid with e | ⟨_, e⟩
+  · rw [e] at h; exact Or.inl h
+  · rw [e] at h; exact mem_areplace p uid _ _ h
+
+theorem reqCount_areplace_noTicket (k : Nat) (id : Id) (v : Kind) (hv : kindOp v = none) (l : List (Id × Kind)) :
+    reqCount k (areplace id v l) ≤ reqCount k l := by
+  induction l with
+  | nil => simp [areplace]
+  | cons p r ih =>
+    obtain ⟨k', kd⟩ := p
+    simp only [areplace]
+    split
+    · simp only [reqCount, hv]
+      have : (if (none : Option Nat) = some k then 1 else 0) = 0 := by simp
+      rw [this]; omega
+    · simp only [reqCount]; omega
+
+theorem reqCount_releaseReservedSlot (k : Nat) (m : Mgr) (id : Id) :
+    reqCount k (m.releaseReservedSlot id).requests ≤ reqCount k m.requests := by
+  rcases releaseReservedSlot_cases m id with e | ⟨_, e⟩
+  · rw [e]; exact Nat.le_refl _
+  · rw [e]; exact reqCount_aerase_le k id _
+
+theorem reqCount_markUnsubscribing (k : Nat) (m : Mgr) (uid rid : Id) :
+    reqCount k (m.markUnsubscribing uid rid).requests ≤ reqCount k m.requests := by
+  rcases markUnsubscribing_cases m uid rid with e | ⟨_, e⟩
+  · rw [e]; exact Nat.le_refl _
+  · rw [e]; exact reqCount_areplace_noTicket k uid _ rfl _
+
+theorem akeys_releaseReservedSlot (m : Mgr) (id : Id) :
+    (akeys (m.releaseReservedSlot id).requests).Sublist (akeys m.requests) := by
+  rcases releaseReservedSlot_cases m id with e | ⟨_, e⟩
+  · rw [e]; exact List.Sublist.refl _
+  · rw [e]; exact akeys_aerase_sublist id _
+
+theorem akeys_markUnsubscribing (m : Mgr) (uid rid : Id) :
+    akeys (m.markUnsubscribing uid rid).requests = akeys m.requests := by
+  rcases markUnsubscribing_cases m uid rid with e | ⟨_, e⟩
+  · rw [e]
+  · rw [e]; exact akeys_areplace uid _ _
 
 end Jrpc.Client
